@@ -224,7 +224,9 @@ CTOR_UNITS = [
       ("IPNetwork", "__getstate__", {}), ("IPNetwork", "__setstate__", {"state": "tup3"}),
       ("IPRange", "__getstate__", {}), ("IPRange", "__setstate__", {"state": "tup3"}),
       ("IPRange", "__init__:int", {"start": "int", "end": "int", "flags": "int"}),
-      ("IPRange", "__init__:str", {"start": "str", "end": "str", "flags": "int"})]),
+      ("IPRange", "__init__:str", {"start": "str", "end": "str", "flags": "int"}),
+      # the netmask setter (SKIP says why Fn cannot read it), specialised to an int and to an IPAddress argument
+      ("IPNetwork", "netmask.setter:int", {"value": "int"}), ("IPNetwork", "netmask.setter:addr", {"value": "obj"})]),
     # the network parser and the IPNetwork constructor, specialised to the kind of `addr`: a tuple of ints | text | an IPNetwork
     # object | an IPAddress object | an int (standing for every other type); text renderings
     (IPFILE, "pysrc_parse_gen.v", "", " Base.PyStr Model.SrcPreludeStr Model.AddrText Model.SrcPreludeCtor Gen.pysrc_gen Gen.pysrc_ctor_gen",
@@ -290,7 +292,7 @@ def bad(node, why, fn=None):
 
 def mangle(recv, name, prefix=""):
     name, _, variant = name.partition(":")          # "method:variant" = a specialisation of the method (see UNITS)
-    return ("src_%s_%s" % (recv, name.strip("_")) if recv else "src_%s%s" % (prefix, name.replace(".", "_"))) + ("_" + variant if variant else "")
+    return ("src_%s_%s" % (recv, name.strip("_").replace(".", "_")) if recv else "src_%s%s" % (prefix, name.replace(".", "_"))) + ("_" + variant if variant else "")
 
 
 def dotted(node):
@@ -2021,6 +2023,22 @@ def _function(self, name):
 
 
 Module.function = _function
+_lookup_base = Module.lookup
+
+
+def _lookup(self, cls, name):
+    """`attr.setter`: the def decorated `@attr.setter` in the body of class `cls` (the only one), as a plain method"""
+    if not name.endswith(".setter"):
+        return _lookup_base(self, cls, name)
+    c, attr = self.classes.get(cls), name[:-7]
+    fs = [f for f in (c.body if c else []) if isinstance(f, ast.FunctionDef) and f.name == attr
+          and [dotted(d) for d in f.decorator_list] == [name]]
+    if len(fs) != 1 or _lookup_base(self, cls, attr) is None or not _lookup_base(self, cls, attr)[2] or _lookup_base(self, cls, attr)[0] != cls:
+        bad(fs[-1] if fs else c, "%s.%s is not exactly one def decorated @%s next to its property" % (cls, attr, name))
+    return cls, fs[0], False
+
+
+Module.lookup = _lookup
 
 
 def fn_class(out):
